@@ -214,8 +214,10 @@ Corollary refines_refusals_spec s c m tape e o fence :
   (forall c' f', a_fids (abs_state (fst (fst (fst r)))) c' f' = a_fids (fst (spec_step (abs_state s) c m o fence)) c' f').
 Proof.
   intros HL Hr Hrm r0. unfold r0. rewrite (refines_refusals s c m tape e HL Hr Hrm). cbn.
-  unfold spec_step. rewrite Hr. cbn. split; [reflexivity|]. intros c' f'.
-  destruct m; try reflexivity. specialize (Hrm f eq_refl). cbn [fid1_of abs_state a_fids]. unfold connid, fid in *. rewrite Hrm. reflexivity.
+  assert (E : spec_step (abs_state s) c m o fence = (abs_state s, Some e)).
+  { unfold spec_step. rewrite Hr. destruct m; try reflexivity.
+    specialize (Hrm f eq_refl). cbn [fid1_of abs_state a_fids]. unfold connid, fid in *. rewrite Hrm. reflexivity. }
+  rewrite E. cbn. split; [reflexivity|]. intros c' f'. reflexivity.
 Qed.
 
 (** ---- every history: the ledger holds after every history in which no rename was cut short by a panic ---- *)
